@@ -73,7 +73,7 @@ def load_known():
     if os.path.exists(path):
         for line in open(path):
             line = line.strip()
-            if line and not line.startswith("#"):
+            if line.startswith("{"):
                 out.append(json.loads(line))
     return out
 
@@ -364,8 +364,8 @@ def finish(spec, tier, seed, t0, results=None, out=None, inconclusive=None, vali
         os.makedirs(os.path.join(VERIF, "replays"), exist_ok=True)
         seen = set()
         for v in confirmed:
-            key = v["msg"] + "|" + v["job"]["body"]
-            if key in seen:
+            key = v["msg"] + "|" + v["job"]["body"] + "|" + json.dumps(v["job"]["params"], sort_keys=True)
+            if key in seen or len(seen) >= 12:
                 continue
             seen.add(key)
             h = hashlib.sha1(json.dumps(v, sort_keys=True).encode()).hexdigest()[:10]
